@@ -11,6 +11,9 @@ for d in sorted(glob.glob(os.path.join(VERIF, "seeded", "*"))):
         continue
     r = (e.get("replays") or [{}])[0]
     how = "concrete input" if e.get("caught") and not e.get("no_failing_input_found_only") else ("no-failing-input-found" if e.get("caught") else "MISSED")
+    fe = e.get("first_evaluation")
+    if fe and not fe.get("caught") and e.get("caught"):
+        how += " (first evaluation: MISSED; check strengthened since)"
     if r.get("lean_error"):
         how += " + proof obligation broke"
     case = "; ".join(r.get("cases") or [])[:110]
